@@ -48,7 +48,11 @@ def run(tier):
            'sigkills': sum(r.get('kills', 0) for r in rn), 'restarts': sum(r.get('restarts', 0) for r in rn), 'snapshots': sum(r.get('snapshots', 0) for r in rn),
            'leader_changes': sum(r.get('leader_changes', 0) for r in rn), 'streams_read': sum(r.get('streams_read', 0) for r in rn),
            'inconclusive': sorted(set(r['harness_error'] for r in rn if r.get('harness_error')))[:3]}
-    apidrive.run_seq('C05', tier, ['TestVerifC05', 'TestVerifC05Fresh'], ASSUME, RULE, level='fault_enumeration', pre_results=rn, extra_cov={'network_tier': net}, t0=t0)
+    variants = None
+    if tier == 'thorough':
+        # single-node tiers once more with the legacy JSON encoding (messages, store values, snapshots) at the quick depth
+        variants = [('json encoding', {'VERIF_ENCODING': 'json', 'VERIF_DEPTH': '4'}), ('', {})]
+    apidrive.run_seq('C05', tier, ['TestVerifC05', 'TestVerifC05Fresh'], ASSUME, RULE, level='fault_enumeration', pre_results=rn, extra_cov={'network_tier': net}, t0=t0, variants=variants)
 
 def replay(path):
     import subprocess
